@@ -214,48 +214,37 @@ func c19Ctx() (*sql.Context, *c19Session) {
 	return &sql.Context{Context: context.Background(), Session: s}, s
 }
 
-// c19InsertGate is the gate section of insertIter.Next (insert.go:105-113),
-// statement for statement. Next itself cannot be run by the executor beyond
-// this point: the type-conversion loop that follows calls context.WithValue
-// (executor gap: reflectlite Type.Comparable). What Next does after the gate
-// with a BIGINT row into BIGINT columns is an identity conversion and
-// inserter.Insert(row).
-func c19InsertGate(i *insertIter, ctx *sql.Context, row sql.Row) error {
-	err := i.validateNullability(ctx, i.schema, row)
-	if err != nil {
-		return i.ignoreOrClose(ctx, row, err)
-	}
-
-	err = i.evaluateChecks(ctx, row)
-	if err != nil {
-		return i.ignoreOrClose(ctx, row, err)
-	}
-	return nil
-}
-
-// VerifC19InsertGate: one row through the write-time gate of insertIter; the
-// row as the gate leaves it is the row that gets stored.
-func VerifC19InsertGate() {
+// VerifC19Insert: one row through the real insertIter.Next (nullability,
+// checks, type conversion, inserter.Insert).
+func VerifC19Insert() {
 	t := c19NewTable()
 	row, in := c19Input("v")
 	ignore := nd.Bool("ignore")
 	ctx, sess := c19Ctx()
+	ed := &c19Editor{}
 	it := &insertIter{
+		rowSource:                   &c19Source{rows: []sql.Row{row}},
+		inserter:                    ed,
 		ctx:                         ctx,
 		checks:                      t.checks,
 		schema:                      t.schema,
 		ignore:                      ignore,
 		firstGeneratedAutoIncRowIdx: -1,
 	}
-	err := c19InsertGate(it, ctx, row)
-	nd.Reach("c19.insert.gate")
-	stored := err == nil
+	_, err := it.Next(ctx)
+	nd.Reach("c19.insert.next")
+	nd.Observe(err == nil, len(ed.stored), len(sess.warns))
+	if len(ed.stored) == 1 && len(ed.stored[0]) == c19Cols {
+		nd.Observe(ed.stored[0][0], ed.stored[0][1], ed.stored[0][2])
+	}
 
-	// (1) the property: a row that passes the gate satisfies the stored-row invariant
+	// (1) the property: whatever reached the table satisfies the stored-row invariant
+	nd.Assert("c19.insert.at-most-one-row-stored", len(ed.stored) <= 1)
 	var st c19Vals
+	stored := len(ed.stored) == 1
 	if stored {
 		var ok bool
-		st, ok = c19Of(row)
+		st, ok = c19Of(ed.stored[0])
 		nd.Assert("c19.insert.stored-row.shape", ok)
 		if !ok {
 			return
@@ -263,6 +252,7 @@ func VerifC19InsertGate() {
 		nd.Assert("c19.insert.stored-row.no-null-in-not-null-column", !t.nullInNotNull(st))
 		nd.Assert("c19.insert.stored-row.no-enforced-check-false", !t.anyFalse(st))
 	}
+	nd.Assert("c19.insert.stored-iff-no-error", stored == (err == nil))
 
 	// (2) the gate decides exactly as specified
 	adj, replaced := t.adjusted(in)
@@ -288,6 +278,89 @@ func VerifC19InsertGate() {
 			nd.Assert("c19.insert.ignore.stored-row-is-adjusted-input", c19Same(st, adj))
 			nd.Assert("c19.insert.ignore.one-warning-per-replaced-null", len(sess.warns) == replaced)
 		}
+	}
+}
+
+// VerifC19InsertNarrow: a column narrower than the inserted value. Table
+// (c0 TINYINT NOT NULL, c1 BIGINT NOT NULL) with one enforced CHECK, c0 > k or
+// c0 < c1; the source row holds two full-range BIGINT values. insertIter.Next
+// evaluates the checks on the row as it arrives and converts to the column
+// types afterwards; without IGNORE an out-of-range value is an error, with
+// IGNORE it is replaced by the nearest TINYINT.
+//
+// Input classes with their own assertion ids:
+//
+//	in range     c0 fits TINYINT (the stored row is the input row)
+//	ignore-clamp INSERT IGNORE with c0 outside TINYINT: the checks must hold
+//	             for the clamped row that is STORED
+func VerifC19InsertNarrow() {
+	v0, v1, k := nd.Int64("v0"), nd.Int64("v1"), nd.Int64("k")
+	shape := nd.Pick("shape", 2)
+	ignore := nd.Bool("ignore")
+	schema := sql.Schema{
+		{Name: "c0", Type: types.Int8, Source: "t"},
+		{Name: "c1", Type: types.Int64, Source: "t"},
+	}
+	f0 := expression.NewGetField(0, types.Int8, "c0", false)
+	f1 := expression.NewGetField(1, types.Int64, "c1", false)
+	var e sql.Expression
+	if shape == 0 {
+		e = expression.NewGreaterThan(f0, expression.NewLiteral(k, types.Int64))
+	} else {
+		e = expression.NewLessThan(f0, f1)
+	}
+	holds := func(a, b int64) bool { // the check is not FALSE on (a, b); no NULLs here
+		if shape == 0 {
+			return a > k
+		}
+		return a < b
+	}
+	ctx, sess := c19Ctx()
+	ed := &c19Editor{}
+	it := &insertIter{
+		rowSource:                   &c19Source{rows: []sql.Row{{v0, v1}}},
+		inserter:                    ed,
+		ctx:                         ctx,
+		checks:                      sql.CheckConstraints{{Name: "chk", Expr: e, Enforced: true}},
+		schema:                      schema,
+		ignore:                      ignore,
+		firstGeneratedAutoIncRowIdx: -1,
+	}
+	_, err := it.Next(ctx)
+	nd.Reach("c19.narrow.next")
+	inRange := nd.And(v0 >= -128, v0 <= 127)
+	stored := len(ed.stored) == 1
+	nd.Assert("c19.narrow.stored-iff-no-error", stored == (err == nil) && len(ed.stored) <= 1)
+	var s0, s1 int64
+	if stored {
+		a, ok0 := ed.stored[0][0].(int8)
+		b, ok1 := ed.stored[0][1].(int64)
+		nd.Assert("c19.narrow.stored-row.column-types", ok0 && ok1)
+		if !(ok0 && ok1) {
+			return
+		}
+		s0, s1 = int64(a), b
+	}
+	if inRange {
+		// the ordinary case: exactly the gate's decision, the input row is stored
+		nd.Assert("c19.narrow.in-range.stored-iff-check-not-false", stored == holds(v0, v1))
+		if stored {
+			nd.Assert("c19.narrow.in-range.stored-row-is-input", nd.And(s0 == v0, s1 == v1))
+			nd.Assert("c19.narrow.in-range.stored-row.no-enforced-check-false", holds(s0, s1))
+		}
+		return
+	}
+	if !ignore {
+		nd.Assert("c19.narrow.strict.out-of-range-rejected", !stored)
+		return
+	}
+	if stored {
+		clamped := int64(127)
+		if v0 < 0 {
+			clamped = -128
+		}
+		nd.Assert("c19.narrow.ignore-clamp.nearest-value-and-warning", nd.And(s0 == clamped, s1 == v1) && len(sess.warns) >= 1)
+		nd.Assert("c19.narrow.ignore-clamp.stored-row.no-enforced-check-false", holds(s0, s1))
 	}
 }
 
